@@ -30,7 +30,7 @@ ASSUMPTIONS = [
     'call() time-outs: pumping wait primitive (threaded) / virtual time '
     '(asyncio)',
 ]
-BUDGET = {'quick': 2000, 'thorough': 80000}
+BUDGET = {'quick': 4000, 'thorough': 80000}
 FLOOR = {'quick': 150, 'thorough': 5000}
 NSS = ['/', '/a', '/b']
 NEVER = [0, 10**6, 2**63, 999]
